@@ -561,3 +561,7 @@ class AsyncCacheGet(CacheGet):
 
 
 CONTRACTS = CONTRACTS + [CacheFactory(), CacheGet(), AsyncCacheGet()]
+
+
+def extra_contracts():
+    return mimic_variants("C12")
